@@ -17,18 +17,18 @@ Definition tbl_in_dir (dirs : list (nat * list nat)) (d : nat) (p : path) : bool
   match passoc d dirs with Some l => nat_mem p l | None => false end.
 
 (* ---------- candidates ---------- *)
+(* switch flag i off: 0 dry storage, 1 lint_file evidence, 2 constants order, 3 ignore parser reuse, 4 API file entry,
+   5 DRY sticky configuration, 6 file-placement sticky configuration *)
 Definition with_flag (i : nat) (q : oquirks) : oquirks :=
-  match i with
-  | 0 => Build_oquirks false (q_lintfile_leaves_evidence q) (q_consts_in_processing_order q) (q_ignore_parser_reused q) (q_api_file_no_finalize q)
-  | 1 => Build_oquirks (q_dry_keeps_storage q) false (q_consts_in_processing_order q) (q_ignore_parser_reused q) (q_api_file_no_finalize q)
-  | 2 => Build_oquirks (q_dry_keeps_storage q) (q_lintfile_leaves_evidence q) false (q_ignore_parser_reused q) (q_api_file_no_finalize q)
-  | 3 => Build_oquirks (q_dry_keeps_storage q) (q_lintfile_leaves_evidence q) (q_consts_in_processing_order q) false (q_api_file_no_finalize q)
-  | _ => Build_oquirks (q_dry_keeps_storage q) (q_lintfile_leaves_evidence q) (q_consts_in_processing_order q) (q_ignore_parser_reused q) false
-  end.
+  let f (j : nat) (b : bool) := if i =? j then false else b in
+  Build_oquirks (f 0 (q_dry_keeps_storage q)) (f 1 (q_lintfile_leaves_evidence q)) (f 2 (q_consts_in_processing_order q))
+                (f 3 (q_ignore_parser_reused q)) (f 4 (q_api_file_no_finalize q)) (f 5 (q_dry_config_sticky q)) (f 6 (q_fp_config_sticky q)).
 (* C08 does not speak about the API's choice of entry point: its ideal keeps that flag as claimed *)
-Definition hist_off (q : oquirks) : oquirks := Build_oquirks false false false false (q_api_file_no_finalize q).
-Definition candidates08 (q : oquirks) : list oquirks := [q; with_flag 0 q; with_flag 1 q; with_flag 2 q; with_flag 3 q; hist_off q].
-Definition candidates10 (q : oquirks) : list oquirks := [q; with_flag 0 q; with_flag 1 q; with_flag 2 q; with_flag 3 q; with_flag 4 q; ideal].
+Definition hist_off (q : oquirks) : oquirks := Build_oquirks false false false false (q_api_file_no_finalize q) false false.
+Definition candidates08 (q : oquirks) : list oquirks :=
+  [q; with_flag 0 q; with_flag 1 q; with_flag 2 q; with_flag 3 q; with_flag 5 q; with_flag 6 q; hist_off q].
+Definition candidates10 (q : oquirks) : list oquirks :=
+  [q; with_flag 0 q; with_flag 1 q; with_flag 2 q; with_flag 3 q; with_flag 4 q; with_flag 5 q; with_flag 6 q; ideal].
 
 (* which paths the patterns of each version of the ignore file match: key 0 = no ignore file, S c = version c *)
 Definition pats_key (pp : option content) : nat := match pp with None => 0 | Some c => S c end.
@@ -39,31 +39,36 @@ Definition tbl_ignored (ign : list (nat * list nat)) (pp : option content) (p : 
 (* TRep k n l: report of kind k over the evidence l; for the block report (k = 0) the last n entries of l are the
    file versions checked since the last finalize (their inline-ignore ranges and contents are known to the rule);
    TBad: a state the single-shot measurement cannot reproduce *)
-Inductive tok := TPer (p : path) (c : option content) | TRep (k : nat) (n : nat) (l : list fv) | TBad.
+(* ck: key of the configuration the report is made under (0 for the stringly-typed report, which carries its own);
+   file versions are enc content configuration *)
+Inductive tok := TPer (p : path) (c : option content) | TFp (p : path) (c : option content)
+               | TRep (k : nat) (n : nat) (ck : nat) (l : list fv) | TBad.
 
 Definition sym_pf (p : path) (c : option content) : list tok := [TPer p c].
-Definition sym_rep (k : nat) (l : list fv) : list tok := [TRep k 0 l].
+Definition sym_fp (p : path) (c : option content) : list tok := [TFp p c].
+Definition sym_rep (k : nat) (cfg : option content) (l : list fv) : list tok := [TRep k 0 (cfg_key cfg) l].
+Definition sym_st (l : list fv) : list tok := [TRep 2 0 0 l].
 
 Definition fv_eqb (a b : fv) : bool := (fst a =? fst b) && (snd a =? snd b).
 Fixpoint fvs_eqb (a b : list fv) : bool :=
   match a, b with [], [] => true | x :: xs, y :: ys => fv_eqb x y && fvs_eqb xs ys | _, _ => false end.
 Fixpoint is_suffix (a l : list fv) : bool :=
   fvs_eqb a l || match l with [] => false | _ :: r => is_suffix a r end.
-Definition sym_blocks (rows aux : list fv) : list tok :=
-  if is_suffix aux rows then [TRep 0 (List.length aux) rows] else [TBad].
+Definition sym_blocks (cfg : option content) (rows aux : list fv) : list tok :=
+  if is_suffix aux rows then [TRep 0 (List.length aux) (cfg_key cfg) rows] else [TBad].
 
 Fixpoint flat_fv (l : list fv) : list nat := match l with [] => [] | (p, c) :: r => p :: c :: flat_fv r end.
 Definition enc_tok (t : tok) : list (list nat) :=
-  match t with TRep k n l => [k :: n :: flat_fv l] | _ => [] end.
+  match t with TRep k n ck l => [k :: n :: ck :: flat_fv l] | _ => [] end.
 
 Section Sym.
-  Variables (hard : list nat) (ign : list (nat * list nat)) (ip : path) (dirs : list (nat * list nat)).
+  Variables (hard : list nat) (ign : list (nat * list nat)) (ip cp : path) (dirs : list (nat * list nat)).
   Definition sym_run (q : oquirks) (fs0 : fsys) (h : list op) : list (out tok) :=
-    snd (run tok sym_pf sym_blocks (sym_rep 1) (sym_rep 2) (fun p => nat_mem p hard) (tbl_ignored ign) ip (tbl_in_dir dirs) q (mk_init ip fs0, fs0) h).
+    snd (run tok sym_pf sym_fp sym_blocks (sym_rep 1) sym_st (fun p => nat_mem p hard) (tbl_ignored ign) ip cp (tbl_in_dir dirs) q (mk_init ip cp fs0, fs0) h).
   Fixpoint sym_fresh_run (q : oquirks) (fs : fsys) (h : list op) : list (out tok) :=
     match h with
     | [] => []
-    | o :: r => fresh tok sym_pf sym_blocks (sym_rep 1) (sym_rep 2) (fun p => nat_mem p hard) (tbl_ignored ign) ip (tbl_in_dir dirs) q fs o
+    | o :: r => fresh tok sym_pf sym_fp sym_blocks (sym_rep 1) sym_st (fun p => nat_mem p hard) (tbl_ignored ign) ip cp (tbl_in_dir dirs) q fs o
                 :: sym_fresh_run q (fs_step fs o) r
     end.
   Definition enc_outs (l : list (out tok)) : list (list nat) := flat_map (fun o => flat_map enc_tok (out_all o)) l.
@@ -97,20 +102,22 @@ Fixpoint rep_lookup (tbl : list (list nat * list N)) (key : list nat) : list N :
 Definition same (a b : list N) : bool := ms_eqb N.eqb a b.
 
 Section Tab.
-  Variables (hard : list nat) (ign : list (nat * list nat)) (ip : path) (dirs : list (nat * list nat)).
-  Variable pf_tbl : list (nat * option nat * list N).
+  Variables (hard : list nat) (ign : list (nat * list nat)) (ip cp : path) (dirs : list (nat * list nat)).
+  Variable pf_tbl fp_tbl : list (nat * option nat * list N).
   Variable rep_tbl : list (list nat * list N).
 
   Definition t_pf := pf_lookup pf_tbl.
-  Definition t_rep (k : nat) (l : list fv) : list N := rep_lookup rep_tbl (k :: 0 :: flat_fv l).
-  Definition t_blocks (rows aux : list fv) : list N :=
-    if is_suffix aux rows then rep_lookup rep_tbl (0 :: List.length aux :: flat_fv rows) else [sentinel].
+  Definition t_fp := pf_lookup fp_tbl.
+  Definition t_rep (k : nat) (cfg : option content) (l : list fv) : list N := rep_lookup rep_tbl (k :: 0 :: cfg_key cfg :: flat_fv l).
+  Definition t_st (l : list fv) : list N := rep_lookup rep_tbl (2 :: 0 :: 0 :: flat_fv l).
+  Definition t_blocks (cfg : option content) (rows aux : list fv) : list N :=
+    if is_suffix aux rows then rep_lookup rep_tbl (0 :: List.length aux :: cfg_key cfg :: flat_fv rows) else [sentinel].
   Definition t_run (q : oquirks) (fs0 : fsys) (h : list op) : list (list N) :=
-    map out_all (snd (run N t_pf t_blocks (t_rep 1) (t_rep 2) (fun p => nat_mem p hard) (tbl_ignored ign) ip (tbl_in_dir dirs) q (mk_init ip fs0, fs0) h)).
+    map out_all (snd (run N t_pf t_fp t_blocks (t_rep 1) t_st (fun p => nat_mem p hard) (tbl_ignored ign) ip cp (tbl_in_dir dirs) q (mk_init ip cp fs0, fs0) h)).
   Fixpoint t_fresh_run (q : oquirks) (fs : fsys) (h : list op) : list (list N) :=
     match h with
     | [] => []
-    | o :: r => out_all (fresh N t_pf t_blocks (t_rep 1) (t_rep 2) (fun p => nat_mem p hard) (tbl_ignored ign) ip (tbl_in_dir dirs) q fs o)
+    | o :: r => out_all (fresh N t_pf t_fp t_blocks (t_rep 1) t_st (fun p => nat_mem p hard) (tbl_ignored ign) ip cp (tbl_in_dir dirs) q fs o)
                 :: t_fresh_run q (fs_step fs o) r
     end.
 
@@ -133,8 +140,8 @@ End Tab.
 
 (* ---------- C10: one command-line invocation against the library API on the same targets ---------- *)
 Section Tab10.
-  Variables (hard : list nat) (ign : list (nat * list nat)) (ip : path) (dirs : list (nat * list nat)).
-  Variable pf_tbl : list (nat * option nat * list N).
+  Variables (hard : list nat) (ign : list (nat * list nat)) (ip cp : path) (dirs : list (nat * list nat)).
+  Variable pf_tbl fp_tbl : list (nat * option nat * list N).
   Variable rep_tbl : list (list nat * list N).
   Variable rule_ids : list string.            (* distinct rule ids of the case *)
   Variable rid : list (N * nat).              (* violation id -> index into rule_ids *)
@@ -157,11 +164,11 @@ Section Tab10.
     else match n_assoc v rid with Some i => nat_mem i spec_rules | None => false end.
 
   Definition m_cli (q : oquirks) (fs : fsys) (files : list path) (ds : list (nat * list path)) : list N :=
-    flat_map out_all (cli_run N (pf_lookup pf_tbl) (t_blocks rep_tbl) (t_rep rep_tbl 1) (t_rep rep_tbl 2)
-                        (fun p => nat_mem p hard) (tbl_ignored ign) ip (tbl_in_dir dirs) q fs files ds).
+    flat_map out_all (cli_run N (pf_lookup pf_tbl) (pf_lookup fp_tbl) (t_blocks rep_tbl) (t_rep rep_tbl 1) (t_st rep_tbl)
+                        (fun p => nat_mem p hard) (tbl_ignored ign) ip cp (tbl_in_dir dirs) q fs files ds).
   Definition m_api (q : oquirks) (fs : fsys) (t : target) : list N :=
-    out_all (api_run N (pf_lookup pf_tbl) (t_blocks rep_tbl) (t_rep rep_tbl 1) (t_rep rep_tbl 2)
-               (fun p => nat_mem p hard) (tbl_ignored ign) ip (tbl_in_dir dirs) q fs t).
+    out_all (api_run N (pf_lookup pf_tbl) (pf_lookup fp_tbl) (t_blocks rep_tbl) (t_rep rep_tbl 1) (t_st rep_tbl)
+               (fun p => nat_mem p hard) (tbl_ignored ign) ip cp (tbl_in_dir dirs) q fs t).
   Definition targets (files : list path) (ds : list (nat * list path)) : list target :=
     map TFile files ++ map (fun d => TDir (fst d) (snd d)) ds.
 
@@ -193,11 +200,11 @@ Section Tab10.
 End Tab10.
 
 Section Sym10.
-  Variables (hard : list nat) (ign : list (nat * list nat)) (ip : path) (dirs : list (nat * list nat)).
+  Variables (hard : list nat) (ign : list (nat * list nat)) (ip cp : path) (dirs : list (nat * list nat)).
   Definition sym_cli (q : oquirks) (fs : fsys) (files : list path) (ds : list (nat * list path)) : list (out tok) :=
-    cli_run tok sym_pf sym_blocks (sym_rep 1) (sym_rep 2) (fun p => nat_mem p hard) (tbl_ignored ign) ip (tbl_in_dir dirs) q fs files ds.
+    cli_run tok sym_pf sym_fp sym_blocks (sym_rep 1) sym_st (fun p => nat_mem p hard) (tbl_ignored ign) ip cp (tbl_in_dir dirs) q fs files ds.
   Definition sym_api (q : oquirks) (fs : fsys) (t : target) : out tok :=
-    api_run tok sym_pf sym_blocks (sym_rep 1) (sym_rep 2) (fun p => nat_mem p hard) (tbl_ignored ign) ip (tbl_in_dir dirs) q fs t.
+    api_run tok sym_pf sym_fp sym_blocks (sym_rep 1) sym_st (fun p => nat_mem p hard) (tbl_ignored ign) ip cp (tbl_in_dir dirs) q fs t.
   Definition queries10 (q : oquirks) (fs : fsys) (files : list path) (ds : list (nat * list path)) : list (list nat) :=
     flat_map (fun c => enc_outs (sym_cli c fs files ds)
                        ++ enc_outs (map (sym_api c fs) (map TFile files ++ map (fun d => TDir (fst d) (snd d)) ds)))
